@@ -359,12 +359,14 @@ def r5(ctx):
            message="the deep copy keeps the id of the original workflow: saving it overwrites the original")
     ls = wb.methods["load_step"]
     src = unparse(ls.node)
-    ok = "step.status = Status.WAITING" in src and "step.terminated = False" in src
+    asg = [n for n in ls.body_nodes() if isinstance(n, ast.Assign) and isinstance(n.targets[0], ast.Attribute)]
+    ok = any(n.targets[0].attr == "status" and unparse(n.value) == "Status.WAITING" for n in asg) and any(
+        n.targets[0].attr == "terminated" and unparse(n.value) == "False" for n in asg)
     ctx.ob("R5", "a re-loaded step starts WAITING and not terminated", ok, func=ls, node=ls.node, instance="builder:load_step")
     # Step.load restores status from the row and input/output ports from the dependencies
     sl = p.func("streamflow.core.workflow.Step.load")
     src = unparse(sl.node)
-    ok = "Status(row['status'])" in src and "get_input_ports(persistent_id)" in src and "get_output_ports(persistent_id)" in src
+    ok = "['status'])" in src and "Status(" in src and "get_input_ports(persistent_id)" in src and "get_output_ports(persistent_id)" in src
     ctx.ob("R5", "Step.load restores status and both port maps", ok, func=sl, node=sl.node, instance="step:load")
     wl = p.func("streamflow.core.workflow.Workflow.load")
     src = unparse(wl.node)
